@@ -114,11 +114,15 @@ def check(s):
     check_global_config(s)
     # ---------------------------------------------------------------- C12.4 mapping-valued pytree fields keep their order
     check_mapping_fields(s)
-    for r_, n_ in (("C12.1", 300), ("C12.2", 41), ("C12.3", 16), ("C12.4", 2), ("C12.5", 50)):
+    # ---------------------------------------------------------------- C12.6 regrouping of per-environment data keeps environments apart
+    from .C06 import check_flatten, check_sample
+    check_flatten(s, "C12.6")
+    check_sample(s, "C12.6", "C12.6")
+    for r_, n_ in (("C12.1", 300), ("C12.2", 41), ("C12.3", 16), ("C12.4", 2), ("C12.5", 50), ("C12.6", 10)):
         s.floor(r_, n_)
 
 
-def check_mapping_fields(s):
+def check_mapping_fields(s, rule="C12.4"):
     """C12.4: JAX flattens a plain `dict` with its keys SORTED and rebuilds it in that order at every transformation boundary
     (jit / vmap / scan / cond), while an OrderedDict keeps its insertion order (documented pytree behaviour). A non-static Module
     field holding a mapping that some method iterates positionally must therefore be an OrderedDict, otherwise the same method
@@ -178,11 +182,11 @@ def check_mapping_fields(s):
             if not iterated:
                 continue
             n_fields += 1
-            s.ob("C12.4", f"{ci.name}.{f.name}", (vk or ak) == "ordered",
+            s.ob(rule, f"{ci.name}.{f.name}", (vk or ak) == "ordered",
                  "a mapping-valued pytree field that methods iterate in order is an OrderedDict (a plain dict is re-ordered by key at every jit / vmap boundary)",
                  P.loc(ci.module, ci.node), key="plain-dict-pytree-field", detail=f"annotation: {ak}; __init__ stores: {vk}; iterated in {sorted(set(iterated))[:6]}",
                  necessary_for="the same result eagerly, under jit and under vmap (component order of Dict spaces, flatten_sample, samples)")
-    s.ob("C12.4", "package", n_fields >= 1, "at least one mapping-valued pytree field was examined (Dict.spaces)", "", key="mapping-fields-found", detail=str(n_fields))
+    s.ob(rule, "package", n_fields >= 1, "at least one mapping-valued pytree field was examined (Dict.spaces)", "", key="mapping-fields-found", detail=str(n_fields))
 
 
 JAX_ENV_PREFIXES = ("JAX_", "XLA_")
